@@ -256,7 +256,7 @@ def check_seek(case):
 
 
 # ---------------------------------------------------------------------------------------------
-TRANSIENT = ["SlowDown", "InternalError", "503", "RequestTimeout", "ServiceUnavailable", "botocore", "oserror"]
+TRANSIENT = ["SlowDown", "InternalError", "503", "RequestTimeout", "ServiceUnavailable", "botocore", "oserror", "conn_closed", "read_timeout", "response_streaming", "incomplete_read", "http_client"]
 PERMANENT = ["AccessDenied", "InvalidAccessKeyId", "NoSuchBucket", "403", "SignatureDoesNotMatch"]
 FOPS = ["read_file", "write_file", "exists_present", "exists_absent", "list_files", "delete_file", "get_size", "get_modified_time", "open_file",
         "read_file_with_etag", "write_file_cas", "range_read", "open_seekable"]
@@ -286,6 +286,19 @@ def _mk_exc(kind):
         return EndpointConnectionError(endpoint_url="http://x")
     if kind == "oserror":
         return ConnectionResetError("reset")
+    # transport failures botocore raises as BotoCoreError subclasses that are neither its ConnectionError nor OSErrors
+    import botocore.exceptions as BE
+
+    if kind == "conn_closed":
+        return BE.ConnectionClosedError(endpoint_url="http://x")
+    if kind == "read_timeout":
+        return BE.ReadTimeoutError(endpoint_url="http://x")
+    if kind == "response_streaming":
+        return BE.ResponseStreamingError(error="connection broken")
+    if kind == "incomplete_read":
+        return BE.IncompleteReadError(actual_bytes=1, expected_bytes=10)
+    if kind == "http_client":
+        return BE.HTTPClientError(error="transport")
     return client_error(kind, "Op", 503 if kind not in PERMANENT else 403)
 
 
@@ -422,15 +435,51 @@ def check_fault(case):
     return out
 
 
+def run_big_listing(task):
+    """Listings far beyond one page and beyond 1000 keys (the size of a real ListObjectsV2 page and a tempting constant):
+    list_files must return every key under the directory, exactly once, on both backends."""
+    import datashard.storage_backend as SB
+
+    res = Result()
+    for page in task["pages"]:
+        for nkeys in task["sizes"]:
+            fake = FakeS3(page_size=page)
+            with s3_env(fake):
+                want = set()
+                for i in range(nkeys):
+                    sub = ("inflight", "manifests", "")[i % 3]
+                    rel = f"metadata/{sub + '/' if sub else ''}k{i:05d}"
+                    fake.raw_put("wh/t/" + rel, b"x")
+                    want.add(rel)
+                fake.raw_put("wh/t/metadata.version-hint.text", b"v1")
+                fake.raw_put("wh/t2/metadata/zz", b"n")
+                s3 = SB.S3StorageBackend(bucket="bkt", prefix="wh/t")
+                case = {"kind": "biglist", "nkeys": nkeys, "page": page}
+                try:
+                    got = list(s3.list_files("metadata"))
+                except Exception as e:  # noqa
+                    res.violation(f"big-listing/raises/{type(e).__name__}", f"list_files('metadata') over {nkeys} keys ({page} per page) raised {type(e).__name__}: {str(e)[:100]}", case)
+                    continue
+                res.case(key=f"biglist|{nkeys}|{page}", nontrivial=True, labels=["big-listing"], sample=case)
+                gs = {g.lstrip("/") for g in got}
+                if gs != want or len(got) != len(gs):
+                    res.violation("big-listing/incomplete", f"list_files('metadata') over {nkeys} keys ({page} keys per page): returned {len(got)} paths ({len(gs)} distinct), "
+                                  f"{len(want - gs)} missing (e.g. {sorted(want - gs)[:2]}), {len(gs - want)} unexpected", case)
+    return res
+
+
 def plan(tier, seed):
     q = tier == "quick"
     tasks = [{"kind": "ops", "n": 1500 if q else 15000, "seed": seed * 1000 + s, "tier": tier} for s in range(6)]
     tasks += [{"kind": "seek", "n": 1500 if q else 30000, "seed": seed * 1000 + 100 + s, "tier": tier} for s in range(6)]
     tasks += [{"kind": "fault", "n": 800 if q else 8000, "seed": seed * 1000 + 200 + s, "tier": tier} for s in range(4)]
+    tasks += [{"kind": "biglist", "sizes": [999, 1000, 1001, 2500], "pages": [1000, 100]}]
     return tasks
 
 
 def run_task(task):
+    if task["kind"] == "biglist":
+        return run_big_listing(task)
     res = Result()
     strat, chk = {"ops": (ops_case(), check_ops), "seek": (seek_case(), check_seek), "fault": (fault_case(), check_fault)}[task["kind"]]
     campaign(strat, chk, task["n"], task["seed"], res, PROP, shrink=task["tier"] == "thorough")
@@ -438,6 +487,9 @@ def run_task(task):
 
 
 def replay(case):
+    if case["kind"] == "biglist":
+        r = run_big_listing({"sizes": [case["nkeys"]], "pages": [case["page"]]})
+        return [{"bucket": v["bucket"], "what": v["what"]} for v in r.violations]
     chk = {"ops": check_ops, "seek": check_seek, "fault": check_fault}[case["kind"]]
     o = chk(case)
     return [{"bucket": b, "what": w} for b, w in o["violations"]]
